@@ -88,7 +88,7 @@ class NF:
                 return add({}, self.nf_or_scalar(args[0]), -1)
             if cid.endswith("Matrix::transpose") and len(args) == 1:
                 return transpose(self.nf(args[0]), self.symmetric)
-            if cid.endswith("Matrix::tr_mul") and len(args) == 2:
+            if cid.rsplit("::", 1)[-1] == "tr_mul" and "nalgebra" in cid and len(args) == 2:
                 return mul(transpose(self.nf(args[0]), self.symmetric), self.nf(args[1]))
             if cid.endswith("reshape_generic") and len(args) == 3:
                 # vec(·) is linear
